@@ -240,10 +240,27 @@ def match_known(known: list[dict], pid: str, rule: str, key: str) -> Optional[di
     return None
 
 
+class GeneratedShapeViolation(Exception):
+    """The shipped parser module is not what the generator emits (a hand edit of generated code).  Every property that is
+    established on the grammar-level reading of the parser is void for such a module: reported as a violation, with the place."""
+
+    def __init__(self, msg: str, where: str, key: str):
+        super().__init__(msg)
+        self.where, self.key = where, key
+
+
 def run_check(pid: str, fn: Callable[[Check], None], tier: str, level: str = "other") -> int:
     chk = Check(pid, tier, level)
     try:
-        fn(chk)
+        try:
+            fn(chk)
+        except GeneratedShapeViolation as e:
+            chk.count("G1-generated-shape")
+            chk.fail("G1-generated-shape", e.key, e.where,
+                     f"the shipped parser is not of the shape the generator emits here ({e}): the method was edited by hand, so what the "
+                     f"grammar says no longer describes what runs — this property cannot hold by construction for a parser that is not "
+                     f"the translation of its grammar")
+            chk.floors = {}
         return chk.finish()
     except AnalysisError as e:
         print(f"ANALYSIS-ERROR property={pid}: {e}")
